@@ -355,13 +355,17 @@ def widthSum (l : List (Nat × Nat)) : Nat := (l.map (·.2)).sum
 
 /-! ### refinement loops -/
 
+/-- the loop condition `step > options.step_min && iters < options.max_iter` -/
+def loopGuard (stepOk : Nat → Bool) (maxIter iters : Nat) : Bool :=
+  stepOk iters && decide (iters < maxIter)
+
 /-- `bcn_util::refine_endpoints`: `while step > step_min && iters < max_iter { …; iters += 1 }`.
 The float comparison is an arbitrary predicate of the iteration number (NaN makes it false).
 Returns the number of executed iterations. -/
 def refineIters (stepOk : Nat → Bool) (maxIter : Nat) : (fuel iters : Nat) → Nat
   | 0, iters => iters
   | fuel + 1, iters =>
-    if stepOk iters && decide (iters < maxIter) then refineIters stepOk maxIter fuel (iters + 1)
+    if loopGuard stepOk maxIter iters then refineIters stepOk maxIter fuel (iters + 1)
     else iters
 
 /-- number of `compute_error` calls of one `refine_endpoints`: one up front (if the loop is
